@@ -31,6 +31,19 @@ CHECKS.update({
          True),
 })
 
+CHECKS.update({
+ "C09": ("xs", "model_checking",
+         "explicit-state BFS to fixpoint over the product (diagram automaton bound to the .puml x real ItsPayloadFsmContinuous), then every (reachable state, identifier byte, flag bits) one-step extension",
+         "The complete reachable product of the real FSM (state id via the cfg(fastpasta_verif) hook, driven bare and inside a real CdpRunningValidator) and the documented automaton is explored to its fixpoint (11 product states, all 11 generated variants reached, every legal (state, symbol) cell taken); from every reachable state one more step is taken with all 256 identifier bytes x {no_data} x {packet_done} (11 264 words, ~10 600 illegal pairs). Invariants per step: classification = the diagram's, successor relation variant -> diagram state is a function, illegal ids are reported at that word (expected word's sanity code in single-successor states, E990/E991/E992 in choice states), legal words are not reported as unrecognised, the FSM inside the validator is in the same state as the bare one. The model is bound to doc/ITS_payload_fsm_continuous_mode.puml: its 23 edges are parsed at start-up and must equal the encoded ones.",
+         "Trusts the reading of the diagram in DESIGN.md Appendix B (CDW accepted in data states per checks_list.md; TDT directly after a data TDH: classification judged, report not judged). No successor is defined after an illegal word, such paths end.",
+         False),
+ "C12": ("enum", "exploration",
+         "bounded-exhaustive enumeration of payload shapes (format x word count x padding length) through the real slicer and a real LinkValidator against the model slicer",
+         "Formats {0,2} x word counts {0..12 quick / 0..40 thorough, 511, 512, 700} x 0..40 trailing 0xFF bytes (so every size residue mod 10 and mod 16) through preprocess_payload (count and bytes of every chunk) and through a real LinkValidator in two modes with individually recognisable faulty words (the set of reported offsets + quoted bytes shows exactly which bytes were examined as words, once each, in order); > 15 bytes of 0xFF: exactly one 'Payload error following RDH' at the RDH offset, no word examined, FSM state id back to initial (hook) and a following conforming HBF accepted.",
+         "Word contents that imitate the other format's padding (format-2 payload with six zero bytes at 10..15) are a separate row, see known findings / DESIGN.md section 6.",
+         True),
+})
+
 NOT_YET = {
 }
 
